@@ -1,19 +1,8 @@
 (* C06 - output records are atomic and carry the label of the host that produced them.
    Statements only; proofs in Dsh/OutputFacts.v and Base/ShuffleFacts.v. *)
-From PV Require Import Cbuf.CbufDefs Cbuf.CbufFd Dsh.Output Dsh.OutputSpec Dsh.OutputFacts Base.Shuffle.
+(* before_eof, script_ok, stream_of, in_domain: Dsh/OutputDomain.v *)
+From PV Require Import Cbuf.CbufDefs Cbuf.CbufFd Dsh.Output Dsh.OutputSpec Dsh.OutputDomain Dsh.OutputFacts Base.Shuffle.
 Local Open Scope N_scope.
-
-(* the descriptor script: what read(2) finds, up to end of file *)
-Fixpoint before_eof (s : list fdev) : list fdev :=
-  match s with [] => [] | Eof :: _ => [] | x :: r => x :: before_eof r end.
-Definition script_ok (s : list fdev) : Prop := Forall (fun e => e <> Avail []) (before_eof s).
-Definition stream_of (s : list fdev) : bytes := script_bytes (before_eof s).
-
-(* the property's domain: text free of NUL, no line longer than 128 KiB including its
-   newline, and (on stdout with -S/-k) free of the reserved marker *)
-Definition in_domain (x : octx) (st : bytes) : Prop :=
-  ~ In 0 st /\ Forall (line_ok CBUF_MAXSIZE) (fst (split_lines st)) /\ line_ok (CBUF_MAXSIZE - 1) (snd (split_lines st)) /\
-  (read_rc x = true -> find_sub RC_MAGIC st = None).
 
 (* Every stdio call is one whole record and nothing else: for every stream in the domain and
    EVERY way the kernel may fragment it (any chunk sizes, EAGAIN anywhere), the sequence of
@@ -41,3 +30,19 @@ Theorem C06_atomic : forall (A : Type) (hs : list (list A)) (g : list A),
   interleaving hs g -> forall i h, nth_error hs i = Some h -> subsequence h g.
 Proof. exact interleaving_keeps_order. Qed.
 Print Assumptions C06_atomic.
+
+(* non-vacuity: a script with a short read, EAGAIN and an unterminated rest lies in the domain
+   (with -S: read_rc = true), and its calls are whole records *)
+Example C06_nonvacuous :
+  let x := mkoctx true false [110;49;46;100] true in
+  let s := [Avail [104;105;10;102]; RdErr; Avail [111;10;98;97]; Eof; Avail [33]] in
+  script_ok s /\ in_domain x (stream_of s) /\
+  snd (run_stream x s) = [[110;49;58;32;104;105;10]; [110;49;58;32;102;111;10]; [110;49;58;32;98;97]].
+Proof.
+  cbn zeta. split; [repeat constructor; discriminate|]. split; [|vm_compute; reflexivity].
+  unfold in_domain. change (stream_of _) with [104;105;10;102;111;10;98;97].
+  split; [cbn; intuition discriminate|]. split; [|split].
+  - change (fst (split_lines _)) with [[104;105;10]; [102;111;10]]. repeat constructor; unfold line_ok; vm_compute; discriminate.
+  - change (snd (split_lines _)) with [98;97]. unfold line_ok. vm_compute. discriminate.
+  - intros _. vm_compute. reflexivity.
+Qed.
